@@ -246,7 +246,7 @@ class Gen:
         return ["case x"] + lines + ["dump"] + calls
     def case_C01(self, idx): return self._with_calls(idx, ["id"], ncalls=8)
     def case_C02(self, idx): return self._with_calls(idx, ["fd", "fd", "fdl", "minv"], ncalls=8)
-    def case_C03(self, idx): return self._with_calls(idx, ["crba", "nle", "id", "ltl", "hprops"], ncalls=10)
+    def case_C03(self, idx): return self._with_calls(idx, ["crba", "nle", "id", "ltl", "hprops", "minv"], ncalls=10)
     def case_C04(self, idx): return self._with_calls(idx, ["b2b", "base2b", "orient"], ncalls=10)
     def case_C05(self, idx): return self._with_calls(idx, ["jac", "jac6", "sjac"], ncalls=8)
     def case_C06(self, idx):
@@ -852,15 +852,23 @@ class Gen:
         r = self.r
         ninst = r.randint(2, 3)
         insts = []
+        # half of the cases: all instances have the same number of degrees of freedom (a scratch object sized by the
+        # dof count would be shared unnoticed) and one routine is called on every instance
+        same_dof = r.random() < 0.5; focus = r.choice([x for x in self.ALLR if x != "scramble"]) if same_dof else None
+        want = None
         for k in range(ninst):
-            lines, ops, coords, sph = self._model_nonempty(nmin=1, nmax=5)
+            for _try in range(30):
+                lines, ops, coords, sph = self._model_nonempty(nmin=1, nmax=5)
+                if not same_dof or want is None or len(coords) == want: break
+            if want is None: want = len(coords)
             q0, _, _, _ = self.state(coords, sph)
             cl = []
             if r.random() < 0.5:
                 cl, rows, _ = self.cset(ops, coords, sph, q0, max_rows=max(1, len(coords) - 1))
             calls = []
-            for _ in range(r.randint(3, 6)):
+            for _c in range(r.randint(3, 6)):
                 rt = r.choice([x for x in self.ALLR if x != "scramble"] + (["cjac", "csys", "fdc"] if cl else []))
+                if focus and _c % 2 == 0: rt = focus
                 self.count("calls", rt)
                 if rt in ("cjac", "csys", "fdc"):
                     _, qd, _, tau = self.state(coords, sph); Q = self.vec(q0)
